@@ -105,6 +105,47 @@ Theorem C17_event_time_counts_milliseconds : forall c s f,
 Proof. intros c s f Hs Hf sv fv Hsv Hfv. unfold gen_time_of. rewrite Hs, Hsv, Hf, Hfv. reflexivity. Qed.
 Print Assumptions C17_event_time_counts_milliseconds.
 
+(* ---- T20: mirror_to_dest itself, regenerated statement by statement from mirror.py as a function from the outcomes of
+   the primitives it calls (exists / makedirs / filecmp.cmp / mirror_fun / rename / isfile) to the file-system actions
+   it attempts.  For EVERY outcome of the primitives: a rename to the final name directly follows a completed staging
+   call under tmp.<name>; the file is published exactly when the directory is there or can be made, the destination is
+   missing or differs, and staging and rename succeed; an equal destination is not touched; a failure is reported unless
+   the source has vanished; the source directory clean-up is attempted last.  And the hand model's mirror_plan publishes
+   exactly when this code does, under the model's reading of the primitives. *)
+From DRF Require Import Model.MirrorDestBase Gen.MirrorDestGen Proofs.MirrorDestGenProofs.
+Theorem C17_staged_publication_is_in_the_code : forall pr l1 ok l2,
+  gen_mirror_to_dest pr = l1 ++ APublish ok :: l2 -> exists l0, l1 = l0 ++ [AStage true].
+Proof. exact staged_publication. Qed.
+Print Assumptions C17_staged_publication_is_in_the_code.
+
+Theorem C17_published_exactly_when : forall pr,
+  existsb is_publish_ok (gen_mirror_to_dest pr) =
+  (p_dest_dir_exists pr || p_makedirs_ok pr) && needs_mirroring pr && p_stage_ok pr && p_rename_ok pr.
+Proof. exact published_iff. Qed.
+Print Assumptions C17_published_exactly_when.
+
+Theorem C17_equal_destination_untouched : forall pr,
+  p_dest_exists pr = true -> p_cmp pr = Some true ->
+  existsb is_stage (gen_mirror_to_dest pr) = false /\ existsb is_publish (gen_mirror_to_dest pr) = false.
+Proof. exact equal_destination_untouched. Qed.
+Print Assumptions C17_equal_destination_untouched.
+
+Theorem C17_failure_reported_unless_source_vanished : forall pr,
+  snd (gen_try_body pr) = false -> existsb is_report (gen_mirror_to_dest pr) = p_src_isfile pr.
+Proof. exact failure_reported_iff_source_still_there. Qed.
+Print Assumptions C17_failure_reported_unless_source_vanished.
+
+Theorem C17_model_plan_publishes_as_the_code : forall mc m s p dir_exists,
+  existsb is_final_rename (mirror_plan mc m s p) =
+  existsb is_publish_ok (gen_mirror_to_dest (prims_of s p dir_exists)).
+Proof. exact mirror_plan_publishes_as_the_code. Qed.
+Print Assumptions C17_model_plan_publishes_as_the_code.
+
+From Coq Require Import String.
+Theorem C17_staging_name_is_tmp_prefix : gen_tmp_prefix = "tmp."%string.
+Proof. reflexivity. Qed.
+Print Assumptions C17_staging_name_is_tmp_prefix.
+
 (* ---- T17: the sources this property rests on keep no state outside the objects the model has (no static locals
    or mutable globals in C, no class-level / module-level containers, `global` rebinding or cache decorators in
    Python): the list of such sites, regenerated from the sources on every run, is empty *)
